@@ -7,6 +7,13 @@ ALL = ["C%02d" % i for i in range(1, 21)]
 
 # id -> (level category, technique, level text, level note, design ref)
 CHECKS = {
+    "C11": (
+        "model_checking",
+        "bounded-exhaustive enumeration of abstract lex specifications x renderings; built definition compared field by field and by lexing behaviour with the abstract specification",
+        "(a) every rule of 1-2 (thorough 3) atoms from a 17-atom menu covering every escape class (ordinary, regex-meta, lex-special, class escapes, \\x41, \\b, multi-byte next to an escape, escaped blank) x every optional-escape rendering x both name quotings x with/without a start-state prefix x posix_escapes on/off x with/without a %grmtools section: the built rule must lex every string of <= 3 symbols over a 14-symbol alphabet exactly as the canonical regular expression of the abstract rule does; (b) two-rule specifications over every start-state prefix x target operation x named/skip, rendered with/without section, both quotings, trailing blanks, whole-line comments, via from_str and new_with_options: rules in source order with the written name, start states, target, regex text, distinct ids, declared start states; (c) all 32 settings of five flags given through the section and through new_with_options against a section that says the opposite, observed through behaviour; (d) the span of every rule name and start-state name must slice exactly that name out of the text the user wrote, and the span of each of eleven kinds of error must lie on the offending line, with and without a %grmtools section.",
+        "The denotation of every atom is written down by hand in the regex crate's syntax. Regex semantics themselves are the regex crate's.",
+        "DESIGN.md 3/C11",
+    ),
     "C09": (
         "model_checking",
         "bounded-exhaustive enumeration of lex specifications x id maps x input strings against a direct maximal-munch reference lexer with a plain state stack",
